@@ -89,6 +89,12 @@ fn alpha_beta_search(
     #[cfg(walleye_verif)]
     crate::verif::note_node(ply_from_root, allow_null);
 
+    // the per ply tables (pv, current line, killers) hold MAX_DEPTH entries and every null move
+    // on the current line adds 10 to the ply, do not search beyond what the tables can hold
+    if ply_from_root >= MAX_DEPTH as i32 - 1 {
+        return get_evaluation(board);
+    }
+
     // check for draw
     if draw_table.is_threefold_repetition(board) {
         return 0;
